@@ -103,9 +103,11 @@ Definition add_spec (x : ispec) (l : list ispec) : list ispec := if mem_spec x l
 
 (** the part the three importers share: std = base + database/sql + stdlibTypes,
     pkg = pq / uuid unless overridden + the overrides' own imports *)
-Definition std_set (uses : string -> bool) (base : list string) (want_sql : bool) : list string :=
+(** [tbl] is the stdlibTypes map in the order Go happens to iterate it *)
+Definition std_set_tbl (tbl : list (string * string)) (uses : string -> bool) (base : list string) (want_sql : bool) : list string :=
   let s1 := if uses "sql.Null" || want_sql then add_str "database/sql" base else base in
-  fold_left (fun acc p => if uses (fst p) then add_str (snd p) acc else acc) stdlib_types s1.
+  fold_left (fun acc p => if uses (fst p) then add_str (snd p) acc else acc) tbl s1.
+Definition std_set := std_set_tbl stdlib_types.
 
 Definition pkg_set (uses : string -> bool) (want_pq : bool) (std : list string) (ovs : list goverride) : list ispec :=
   let p0 := if want_pq then [("", "github.com/lib/pq")] else [] in
